@@ -394,6 +394,14 @@ func TestVerifC05(t *testing.T) {
 		size := 5 + r.Intn(30)
 		c05Bubble(t, func() { c05WRandom(out, r, size) })
 	}
+	ns := 1500
+	if thorough {
+		ns = 40000
+	}
+	for i := 0; i < ns; i++ {
+		size := 4 + r.Intn(25)
+		c05Bubble(t, func() { c05SyncRandom(out, r, size) })
+	}
 	nr := 3000
 	if thorough {
 		nr = 100000
